@@ -247,7 +247,7 @@ def sound_job(stride):
     return path
 
 
-def parload_job(lens, stride=1, hint='none', atoms=None, frame_for=None):
+def parload_job(lens, stride=1, hint='none', atoms=None, frame_for=None, as_args=False):
     lens = list(lens)
 
     def setup(sym):
@@ -275,6 +275,10 @@ def parload_job(lens, stride=1, hint='none', atoms=None, frame_for=None):
         args = None
         if frame_for is not None:
             args = [dict(kw, frame=1) if i == frame_for else dict(kw) for i in range(len(files))]
+            kw = {}
+        elif as_args:
+            # the per-file form args=[{...}, ...] (what load_trajectory_as_striped and cluster/util.py pass) instead of keyword arguments
+            args = [dict(kw) for _ in files]
             kw = {}
         true_l = [1 if (frame_for == i) else len(range(0, n, stride)) for i, n in enumerate(lens)]
         lh = None
@@ -477,6 +481,10 @@ def jobs(tier):
         add('parload_job', 'parload[%s,hint=wrong]' % list(lens), lens=lens, hint='wrong')
         add('parload_job', 'parload[%s,atoms=[1]]' % list(lens), lens=lens, atoms=[1])
     add('parload_job', 'parload[[3, 2],frame= for file 0]', lens=(3, 2), frame_for=0)
+    for lens in ((3,), (2,), (3, 2)):
+        add('parload_job', 'parload[%s,stride=2,options per file (args=)]' % list(lens), lens=lens, stride=2, as_args=True)
+    add('parload_job', 'parload[[3],atoms=[1],options per file (args=)]', lens=(3,), atoms=[1], as_args=True)
+    add('parload_job', 'parload[[3],stride=2,hint=right,options per file (args=)]', lens=(3,), stride=2, hint='right', as_args=True)
     for kind in ('npy', 'h5'):
         for lens in (((2,), (3, 2), (1, 3, 2)) if q else ((2,), (3, 2), (1, 3, 2), (4, 1), (2, 2, 2), (1, 1, 5, 2))):
             for stride in ((1, 2) if q else (1, 2, 3)):
